@@ -148,7 +148,11 @@ fn handle_put<R: Read, W: Write>(
         return write_frame(w, &Response::Error("bad path".into()));
     };
     if let Some(p) = dst.parent() {
-        std::fs::create_dir_all(p)?;
+        // e.g. a path below an existing regular file: refuse this request, keep serving
+        if std::fs::create_dir_all(p).is_err() {
+            std::io::copy(&mut r.take(len), &mut std::io::sink())?;
+            return write_frame(w, &Response::Error("cannot create parent directory".into()));
+        }
     }
     let tmp = tmp_of(&dst);
     // Stream exactly `len` bytes to the temp file + hash them (never buffer whole).
@@ -181,7 +185,11 @@ fn handle_put<R: Read, W: Write>(
         let current = current_hash(&dst);
         match cas_decide(current, expected) {
             Cas::Commit => {
-                let _ = std::fs::rename(&tmp, &dst);
+                // Never acknowledge a commit that did not happen (e.g. the path is a directory).
+                if std::fs::rename(&tmp, &dst).is_err() {
+                    let _ = std::fs::remove_file(&tmp);
+                    return Response::Error("cannot publish at this path".into());
+                }
                 Response::PutResult {
                     committed: true,
                     current: Some(hash),
@@ -191,7 +199,10 @@ fn handle_put<R: Read, W: Write>(
                 // Never overwrite on a stale CAS — land a conflict-copy.
                 let mut cn = dst.as_os_str().to_owned();
                 cn.push(format!(".conflict-{}", super::wire::short_hash(&hash)));
-                let _ = std::fs::rename(&tmp, PathBuf::from(cn));
+                if std::fs::rename(&tmp, PathBuf::from(cn)).is_err() {
+                    let _ = std::fs::remove_file(&tmp);
+                    return Response::Error("cannot store the conflict-copy".into());
+                }
                 Response::PutResult {
                     committed: false,
                     current,
